@@ -1,7 +1,7 @@
 (* C03 — stream framing: consumed ++ remainder = input; the result ignores trailing bytes;
    no proper prefix of a completely consumed encoding parses. *)
 From Model Require Import Bytes Prim Tables Cert KAC Mapping Sig LS RI.
-From Proofs Require Import BytesLemmas PrimProofs Frame LeafProofs KacRT OffProofs MapRT UptoRT AppendAll Retail.
+From Proofs Require Import BytesLemmas PrimProofs Frame LeafProofs KacRT OffProofs MapRT UptoRT AppendAll Retail LSStrip.
 Open Scope Z_scope.
 
 (* general: prefix-freeness is a consequence of append-invariance, for every parser *)
@@ -152,3 +152,15 @@ Theorem C03_replace_tail_router_info : forall d i r r', wf d -> wf r' -> read_ro
   exists c i', d = c ++ r /\ read_router_info (c ++ r') = Ok (i', r') /\ router_info_bytes i' = router_info_bytes i.
 Proof. exact read_router_info_retail. Qed.
 Print Assumptions C03_replace_tail_router_info.
+(* LeaseSet (version 1) reports no remainder: what it looks at is exactly its own serialisation —
+   the input with everything after that cut off is accepted as the same value *)
+Theorem C03_lease_set_reads_only_its_serialisation : forall d l, wf d -> read_lease_set d = Ok l ->
+  exists b r, lease_set_bytes l = Ok b /\ b ++ r = d /\ read_lease_set b = Ok l.
+Proof. exact read_lease_set_strip. Qed.
+(* the destination in front of a LeaseSet: whatever follows it can be replaced *)
+Theorem C03_replace_tail_destination_from_leaseset : forall d dest rem t', wf d -> wf t' ->
+  read_destination_from_leaseset d = Ok (dest, rem) ->
+  exists db, kac_bytes dest = Ok db /\ d = db ++ rem /\ (387 <= length db)%nat /\
+             read_destination_from_leaseset (db ++ t') = Ok (dest, t').
+Proof. exact read_dfl_retail. Qed.
+Print Assumptions C03_replace_tail_destination_from_leaseset.
